@@ -158,6 +158,8 @@ Fixpoint ends_with (suffix s : string) : bool :=
 Definition witness_ok (name : string) (p : fcprog) : bool :=
   if ends_with "corpus/fun/c12_capture_illtyped.sc" name then fcprog_eqb p WtDefs.capture_typing_witness
   else if ends_with "corpus/fun/c12_main_nonint.sc" name then fcprog_eqb p main_nonint_witness
+  else if ends_with "corpus/fun/call_main_nontail.sc" name then fcprog_eqb p call_main_witness
+  else if ends_with "corpus/fun/call_main_tail.sc" name then fcprog_eqb p WtDefs.call_main_tail_witness
   else true.
 
 (* the innermost node at which [tg] fails (diagnosis only) *)
